@@ -62,6 +62,32 @@ def check_tree(C, drv, root, shape, tag):
             worst = max(ulp_diff(a, b) for a, b in zip(m, e))
             if worst > tol:
                 C.issue('operator-mismatch', 'correspondence', rp, op=op, ulps=worst, model=m, real=e.tolist())
+    # evaluation is a function of the *current* tree: edit it below the root (new terminal value, terminal array
+    # changed in place, subtree re-hung) and evaluate again — every node is compared with the reference again
+    if tag != 'edited' and len(nodes) >= 3 and C.rng.random() < 0.5:
+        terms = [n for n in nodes if n.type == 'TERMINAL']
+        t = C.rng.choice(terms)
+        how = C.rng.choice(['new-value', 'in-place', 'rehang'])
+        if how == 'new-value':
+            t.value = np.array(t.value, copy=True) * 0.5 + 1.25
+        elif how == 'in-place':
+            t.value = np.array(t.value, copy=True)      # private array, then changed in place
+            _ = root.position
+            t.value += 0.75
+        else:
+            deep = [n for n in nodes if n.parent is not None and n.parent.parent is not None]
+            if deep:
+                d_ = C.rng.choice(deep)
+                L_ = lib.load()
+                newt = L_['Node'](name=0, type='TERMINAL', value=np.array(terms[0].value, copy=True) - 2.0)
+                par = d_.parent
+                if d_.flag:
+                    par.left = newt
+                else:
+                    par.right = newt
+                    newt.flag = False
+                newt.parent = par
+        check_tree(C, drv, root, shape, 'edited')
     C.case(key=(before, rp['arrays'][0] if rp['arrays'] else None), nontrivial=len(nodes) > 1, kind=tag,
            sample=dict(tree=before, value=np.asarray(val).tolist()) if special or len(C.samples) == 0 else None)
 
